@@ -15,8 +15,8 @@ type persistentPriorityQueue[T any] struct {
 }
 
 func newPersistentPriorityQueue[T any](w *worker[T, iJob[T]], pq IPersistentPriorityQueue) PersistentPriorityQueue[T] {
-	w.queues.Register(pq)
-
+	// newPriorityQueue registers pq with the worker; registering it here as well made the
+	// strategies see the queue twice (double round-robin share, pending counted twice).
 	return &persistentPriorityQueue[T]{
 		priorityQueue: newPriorityQueue(w, pq),
 	}
